@@ -196,11 +196,13 @@ func (c *actx) nodeBattery(dense bool) {
 		}
 		gp, isNil := tr.ParentCtx(x)
 		c.chk(gp == ref.Parent[x] && isNil == (ref.Parent[x] < 0), "blockNode.Parent", "node %d.Parent() = %d (nil %v), want %d", x, gp, isNil, ref.Parent[x])
+		ys := []int{-1, 0, ref.Parent[x], x, c.n - 1, (x*7 + 3) % c.n, (x + 1) % c.n}
 		if dense {
-			for y := -1; y < c.n; y++ {
-				got, want := tr.IsAncestor(x, y), ref.IsAncestor(x, y)
-				c.chk(got == want, "blockNode.IsAncestor", "node %d.IsAncestor(node %d) = %v, parent walk gives %v", x, y, got, want)
-			}
+			ys = c.allNodesAndNil()
+		}
+		for _, y := range ys {
+			got, want := tr.IsAncestor(x, y), ref.IsAncestor(x, y)
+			c.chk(got == want, "blockNode.IsAncestor", "node %d.IsAncestor(node %d) = %v, parent walk gives %v", x, y, got, want)
 		}
 	}
 }
